@@ -334,5 +334,7 @@ pub fn main(args: &[String]) {
             }
         }
     }
+    // the C++ wrapper layer: a callback that Rust stores and calls after the setter returned (under ASan)
+    crate::c02::special_methods_probe(&mut rep);
     rep.print();
 }
